@@ -155,6 +155,10 @@ pub fn run(cfg: &RunCfg) -> Report {
     );
     if let Some(r) = &cfg.replay {
         let r = r.get("case").unwrap_or(r);
+        if let Some(n) = r.get("default_function_type").and_then(|x| x.as_str()) {
+            default_functions(&mut rep, Some(n));
+            return rep;
+        }
         if let (Some(m), Some(g)) = (r.get("recursion_module").and_then(|m| m.as_str()), r.get("graph_request").and_then(|m| m.as_str())) {
             let body = m.lines().filter(|l| !l.starts_with("Rec-Mod DEFINITIONS") && *l != "END").collect::<Vec<_>>().join("\n");
             judge_marking(&[RecGraph { label: "replay".into(), body, request: g.to_string() }], &mut rep);
@@ -173,7 +177,70 @@ pub fn run(cfg: &RunCfg) -> Report {
     judge("c02", &cases, &mut rep, &describe);
     judge_recursion(&recursion_modules(cfg), &mut rep);
     judge_marking(&recursion_graphs(cfg), &mut rep);
+    default_functions(&mut rep, None);
     rep
+}
+
+/// "DEFAULT components carry a default function": the function named by the field's `default` attribute exists,
+/// and so do the functions `impl Default` calls — for type names that the Rust spelling changes (hyphens before
+/// capitals, digits, lower-case letters; all capitals), SEQUENCE and SET, all or some members with DEFAULT
+fn default_functions(rep: &mut Report, only: Option<&str>) {
+    let names = ["DL-Info", "Msg-2", "My-Type", "MY-TYPE", "Ab-cD", "Plain", "X25-addr", "A-B-C", "Cert-2x"];
+    for (k, n) in names.iter().enumerate() {
+        if only.is_some_and(|o| o != *n) {
+            continue;
+        }
+        for (form, body) in [
+            ("SEQUENCE", "{ x INTEGER DEFAULT 1, y-z BOOLEAN DEFAULT TRUE }"),
+            ("SET", "{ x INTEGER DEFAULT 1, y-z BOOLEAN DEFAULT TRUE }"),
+            ("SEQUENCE", "{ w NULL, x INTEGER (0..7) DEFAULT 1, ..., v UTF8String DEFAULT \"q\" }"),
+        ] {
+            rep.evaluations += 1;
+            rep.count("default-function");
+            let text = format!("Df-Mod{k} DEFINITIONS AUTOMATIC TAGS ::= BEGIN\n{n} ::= {form} {body}\nEND\n");
+            let case = json!({"default_function_type": n, "module": text});
+            match compile_rasn(&[text.clone()]) {
+                Outcome::Ok { generated, .. } => match proj::project(&generated) {
+                    Ok(ms) => {
+                        let Some(m) = ms.first() else { continue };
+                        let fns: Vec<&String> = m.items.iter().filter(|i| matches!(i.kind, proj::ItemKind::Fn { .. })).map(|i| &i.name).collect();
+                        let mut seen = 0;
+                        for it in &m.items {
+                            match &it.kind {
+                                proj::ItemKind::Struct { fields, tuple: false } => {
+                                    for f in fields {
+                                        if let Some(d) = f.attrs.get("default") {
+                                            seen += 1;
+                                            let d = d.trim_matches('"').to_string();
+                                            if !fns.contains(&&d) {
+                                                rep.unsat("", false, json!({"why": format!("field `{}` of `{}` names the default function `{d}`; the module has {:?}", f.name, it.name, fns), "case": case}));
+                                            }
+                                        }
+                                    }
+                                }
+                                proj::ItemKind::Impl { trait_: Some(t), body, .. } if t.contains("Default") => {
+                                    let sq: String = body.chars().filter(|c| !c.is_whitespace()).collect();
+                                    for call in sq.split(':').filter_map(|p| p.strip_suffix("()").or_else(|| p.split("()").next().filter(|x| p.contains("()") && !x.is_empty()))) {
+                                        let name: String = call.chars().rev().take_while(|c| c.is_alphanumeric() || *c == '_').collect::<String>().chars().rev().collect();
+                                        if name.ends_with("_default") && !fns.iter().any(|f| **f == name) {
+                                            rep.unsat("", false, json!({"why": format!("`impl Default` calls `{name}()`; the module has {:?}", fns), "case": case}));
+                                        }
+                                    }
+                                }
+                                _ => {}
+                            }
+                        }
+                        if seen == 0 {
+                            rep.unsat("", false, json!({"why": "no field carries a `default` attribute", "case": case}));
+                        }
+                    }
+                    Err(e) => rep.unsat("", false, json!({"why": format!("generated text is not a sequence of Rust items: {e}"), "case": case})),
+                },
+                Outcome::Err(e) => rep.sample(json!({"compile_err": e, "module": text})),
+                Outcome::Panic(p) => rep.unsat("", false, json!({"why": format!("panic: {p}"), "case": case})),
+            }
+        }
+    }
 }
 
 /// a set of definitions described abstractly: the notation, and what the recursion analysis sees of it
@@ -242,12 +309,18 @@ fn recursion_graphs(cfg: &RunCfg) -> Vec<RecGraph> {
                         comps.push(format!("f{j} {ty}{opt}"));
                         members.push(refs);
                     }
+                    // sometimes a member whose DEFAULT the linker cannot tie to its type (a one-element list value is
+                    // lexed as an object identifier): a warning about the value must not stop the recursion analysis
+                    if kind != 2 && rng.chance(1, 6) {
+                        comps.push("pal SET OF Qcol DEFAULT { red }".into());
+                        members.push(vec![]);
+                    }
                     let kw = ["SEQUENCE", "SET", "CHOICE"][kind];
                     defs.push((name.clone(), true, members, format!("{name} ::= {kw} {{ {} }}", comps.join(", "))));
                 }
             }
         }
-        let body = defs.iter().map(|d| d.3.clone()).collect::<Vec<_>>().join("\n");
+        let body = defs.iter().map(|d| d.3.clone()).collect::<Vec<_>>().join("\n") + "\nQcol ::= ENUMERATED { red, green }";
         let mut sorted: Vec<&(String, bool, Vec<Vec<String>>, String)> = defs.iter().collect();
         // `Validator::link` pops its key list from the end: definitions are analysed in descending key order
         sorted.sort_by(|a, b| b.0.cmp(&a.0));
